@@ -117,7 +117,7 @@ impl StateCheck for C13 {
 
 pub fn run(ctx: &Ctx) -> i32 {
     let shared = Shared::new("C13", ctx);
-    flow_models(ctx, &shared, C13, FlowSpec { quick_depth: 3, thorough_depth: 4, extra: vec![], deep: true, seeded: true, t3: true, valuesets: true });
+    flow_models(ctx, &shared, C13, FlowSpec { quick_depth: 3, thorough_depth: 4, extra: vec![], deep: true, heavy_oracle: false, seeded: true, t3: true, valuesets: true });
     finish(
         ctx,
         &shared,
